@@ -54,13 +54,37 @@
                                    what it leaves serves EXACTLY the reflexive transitive closure (soundness and completeness)
      c12_total_exact               a Total-shaped version over a structure satisfying C18's invariant (in its weak form, which every
                                    structure the provider builds satisfies) serves exactly the closure of the pairs it was built from
-     c12_sound_partial             binary form, EVERY sequence of operations (any order, boundaries anywhere): every operation runs,
-                                   and everything any view of delta, total or the stored relation serves lies in the closure of the
-                                   pairs handed to insert
-     c12_never_panics_partial      binary form, EVERY sequence of operations: no operation of the provider fails (no assert, unwrap,
-                                   index, "unexpected shape" panic) and the inner semi-naive loop of every merge terminates
-                                   (within (number of classes)^2 + 2 rounds)
-     c12_protocol_any_union_find   the same two statements for ANY union-find structure satisfying the interface [truf_iface]
+   -- EVERY sequence of operations (stratum starts, stratum ends, merges, inserts, head updates in any order; keys pausing and resuming)
+     c12_never_panics              both forms (the ternary one with or without reverse maps): no operation fails — no assert, unwrap,
+                                   index out of range, division by zero, "unexpected shape" panic in the modelled paths (list: header of
+                                   Byods/TrUfProvModel.v), the inner semi-naive loop of every merge terminates (within (number of
+                                   classes)^2 + 2 rounds), and so does reading EVERY view of delta and total after each stratum start and
+                                   each merge (read_bin / read_ter: index_get over the finite domain, iter_all, contains_key, len_estimate);
+                                   = c12_binary_never_panics /\ c12_ternary_never_panics
+     c12_ternary_runs              the state invariant behind the ternary half: per key the shapes of the binary provider, generalised to
+                                   absent entries (an empty Total-shaped delta is accepted next to any total), and every key listed in a
+                                   reverse map of delta / total / the stored relation has an entry in that version's map
+     c12_views_once_binary         every view of the delta version (Delta- or Total-shaped), of the total version and of the stored
+                                   relation returns each tuple ONCE: iter_all, ind0 / ind1 index_get, ind0 / ind1 iter_all (the keys it
+                                   yields and the values under each key) are duplicate-free (nodup_version)
+     c12_views_once_ternary        the same for the eight index views of the ternary form (nodup_tern): None / [0] / full iter_all (tuples and
+                                   keys), [0] index_get, [0,1] / [0,2] index_get and iter_all, [1] / [2] index_get and iter_all (through the reverse
+                                   maps), [1,2] index_get and iter_all; so a rule reading a trrel_uf relation fires once per tuple, and an
+                                   aggregate over it (C04) counts each tuple once
+     c12_reads_once_binary, c12_reads_once_ternary   the same at the level of the observations the tie compares with the real provider: at
+                                   EVERY read of EVERY history (run_bin / run_ter: after each stratum start and each merge), each of the 9
+                                   (binary) / 11 or 17 (ternary) views of delta and of total — index_get evaluated for every key of the finite
+                                   domain, iter_all, contains_key, flattened to tuples in column order — lists each tuple once
+     c12_delta_views_once, c12_total_views_once   the two ingredients, for ANY structure satisfying C18's invariant in its weak form: a Delta
+                                   with duplicate-free connection maps / a Total serves each tuple once
+     c12_merge_keeps_maps_disjoint whenever the merge of TrRelIndCommon returns — no hypothesis on the union-find structure —, a Delta-shaped
+                                   result has duplicate-free connection maps: every pair the inner loop adds passed can_add (not in
+                                   delta_delta, not in delta_total), so each unchecked move delta_delta -> delta_total is disjoint
+     c12_sound_partial             binary form: every operation runs, and everything any view of delta, total or the stored relation
+                                   serves lies in the closure of the pairs handed to insert.  Partial: the soundness half only (completeness
+                                   on histories with a boundary in the middle of a round is refuted: c12_any_boundary_refuted), and not
+                                   stated per key for the ternary form
+     c12_protocol_any_union_find   soundness and panic freedom of the binary form for ANY union-find structure satisfying the interface [truf_iface]
      c12_iface_discharged          C18's invariant in its weak form satisfies that interface (tr_add, add_node_new, the queries)
      c12_inner_loop_round          one round of the inner loop of the merge keeps the invariant "every processed class pair is
                                    saturated against total and new" (the class-level core of c12_binary_exact)
@@ -73,11 +97,12 @@
    cover such a tuple (that is what c12_engine_theorem proves).
    The five former refutations are now positive (the theorems c12_witness_...); the refutations themselves are kept on the model of the code
    before the repairs (Byods/TrUfProvBeforeFix.v, module BeforeFix): the theorems c12_before_fix_refuted_...
-   What is missing (carried by the tie only): multiplicities (that a view returns each tuple once) are proved only for Total-shaped
-   versions (C18's NoDup statements); the composite observation functions read_bin / read_ter of the model (a harness artefact: every
-   view evaluated over a finite domain) are shown not to fail for the binary form only (c12_never_panics_partial) — for the ternary form
-   each view is shown not to fail separately; the statements about every history are about histories whose stratum boundaries follow a
-   merge that moved nothing (what generated code does), not boundaries anywhere (c12_any_boundary_refuted shows why). *)
+   What is missing (carried by the tie only): soundness on EVERY sequence of operations is stated for the binary form only
+   (c12_sound_partial; for the ternary form exactness is proved on the histories generated code produces: c12_ternary_exact); the statements
+   about exactness are about histories whose stratum boundaries follow a merge that moved nothing (what generated code does), not boundaries
+   anywhere (c12_any_boundary_refuted shows why).  The multiplicity theorems are about the model, in which a HashSet is its content listed in
+   insertion order: they hold for every order in which the pairs of a round are inserted and their argument never uses the order of a list;
+   that the model's views equal the real ones WITH multiplicity is the tie (sorted lists; delta views are compared modulo the tuples of the same view of total, see gen/c12_ds.py). *)
 From Coq Require Import List Arith Bool ZArith.
 From AV Require Import Engine.Core Engine.Sem Engine.Eval Engine.Validate Engine.Naive Engine.Interface.
 From AV Require Import Byods.Provider Engine.EvalProv Engine.InterfaceProv Engine.ProvLaws.
@@ -93,6 +118,9 @@ From AV Require Import Byods.TrUfProvViews.
 From AV Require Import Byods.TrUfProvRevViews.
 From AV Require Import Byods.TrUfProvEngine.
 From AV Require Import Byods.TrUfProvProgram.
+From AV Require Import Byods.TrUfProvTernarySafe.
+From AV Require Import Byods.TrUfProvMult.
+From AV Require Import Byods.TrUfProvReads.
 Import ListNotations.
 Close Scope Z_scope.
 
@@ -300,8 +328,61 @@ Theorem c12_sound_partial : forall dom ops,
      sound_version (args ops) (s_delta st) /\ sound_version (args ops) (s_total st) /\ sound_version (args ops) (s_stored st).
 Proof. exact bin_sound. Qed.
 
-Theorem c12_never_panics_partial : forall dom ops n e, ~ In (RPanic n e) (run_bin dom ops).
+(* ---- every sequence of operations: nothing fails, binary and ternary form *)
+Theorem c12_binary_never_panics : forall dom ops n e, ~ In (RPanic n e) (run_bin dom ops).
 Proof. exact bin_never_panics. Qed.
+
+Theorem c12_ternary_never_panics : forall has1 has2 dom kdom ops n e, ~ In (RPanic n e) (run_ter has1 has2 dom kdom ops).
+Proof. exact ter_never_panics. Qed.
+
+Theorem c12_never_panics :
+  (forall dom ops n e, ~ In (RPanic n e) (run_bin dom ops)) /\
+  (forall has1 has2 dom kdom ops n e, ~ In (RPanic n e) (run_ter has1 has2 dom kdom ops)).
+Proof. exact (conj bin_never_panics ter_never_panics). Qed.
+
+Theorem c12_ternary_runs : forall has1 has2 dom kdom ops,
+  exists st, run_state (ter_prov has1 has2 dom kdom) (ps_init (ter_prov has1 has2 dom kdom)) ops = Ok st /\
+             pst_ok has1 has2 (args ops) st.
+Proof. exact ter_sound. Qed.
+
+(* ---- every sequence of operations: every view returns each tuple once *)
+Theorem c12_views_once_binary : forall dom ops,
+  exists st, run_state (bin_prov dom) (ps_init (bin_prov dom)) ops = Ok st /\
+    nodup_version (s_delta st) /\ nodup_version (s_total st) /\ nodup_version (s_stored st).
+Proof. exact bin_mult. Qed.
+
+Theorem c12_views_once_ternary : forall has1 has2 dom kdom ops,
+  exists st, run_state (ter_prov has1 has2 dom kdom) (ps_init (ter_prov has1 has2 dom kdom)) ops = Ok st /\
+    nodup_tern (s_delta st) /\ nodup_tern (s_total st) /\ nodup_tern (s_stored st).
+Proof. exact ter_mult. Qed.
+
+Theorem c12_reads_once_binary : forall dom ops d t, In (RRead d t) (run_bin dom ops) ->
+  forall v, In v d \/ In v t -> NoDup (vtuples v).
+Proof. exact bin_reads_once. Qed.
+
+Theorem c12_reads_once_ternary : forall has1 has2 dom kdom ops d t, In (RRead d t) (run_ter has1 has2 dom kdom ops) ->
+  forall v, In v d \/ In v t -> NoDup (vtuples v).
+Proof. exact ter_reads_once. Qed.
+
+Theorem c12_delta_views_once : forall d E, tinv_weak E (d_total d) -> mwf (d_conn d) -> mwf (d_rev d) -> nodup_version (CDelta d).
+Proof. exact delta_nodup. Qed.
+
+Theorem c12_total_views_once : forall E t, tinv_weak E t -> nodup_version (CTotal t).
+Proof. exact total_nodup. Qed.
+
+Theorem c12_merge_keeps_maps_disjoint : forall n d t n' d' t', c_merge n d t = Ok (n', d', t') -> dwf d' /\ dwf t'.
+Proof. exact c_merge_dwf. Qed.
+
+(* a non-trivial instance: a chain closed into a cycle while a delta exists, plus a new element; the delta is Delta-shaped, lists 10
+   pairs over 4 connection entries, and the ternary delta over two keys lists 4 values of column 1 through reverse_map1 *)
+Example c12_example_delta_views :
+  (do st <- run_state (bin_prov 4) (ps_init (bin_prov 4)) [OStart; OHead 0 0 1; OHead 0 1 2; OMerge; OHead 0 2 0; OHead 0 3 0; OMerge];
+   do l <- c_iter_all (s_delta st);
+   Ok (match s_delta st with CDelta d => length (d_conn d) | _ => 0 end, length l)) = Ok (4, 10) /\
+  (do st <- run_state (ter_prov true true 4 2) (ps_init (ter_prov true true 4 2))
+              [OStart; OHead 0 0 1; OHead 1 1 2; OMerge; OHead 0 1 0; OHead 1 2 3; OMerge];
+   do l <- t_i12x_all false (s_delta st); Ok (map (fun xl => (fst xl, length (snd xl))) l)) = Ok [(1, 3); (0, 1); (2, 1); (3, 1)].
+Proof. vm_compute. split; reflexivity. Qed.
 
 (* the protocol layer is correct for any union-find structure with the interface; C18's structure has it *)
 Theorem c12_protocol_any_union_find : forall I, truf_iface I ->
@@ -417,7 +498,18 @@ Print Assumptions c12_any_boundary_refuted.
 Print Assumptions c12_nonrecursive_exact.
 Print Assumptions c12_total_exact.
 Print Assumptions c12_sound_partial.
-Print Assumptions c12_never_panics_partial.
+Print Assumptions c12_binary_never_panics.
+Print Assumptions c12_ternary_never_panics.
+Print Assumptions c12_never_panics.
+Print Assumptions c12_ternary_runs.
+Print Assumptions c12_views_once_binary.
+Print Assumptions c12_views_once_ternary.
+Print Assumptions c12_reads_once_binary.
+Print Assumptions c12_reads_once_ternary.
+Print Assumptions c12_delta_views_once.
+Print Assumptions c12_total_views_once.
+Print Assumptions c12_merge_keeps_maps_disjoint.
+Print Assumptions c12_example_delta_views.
 Print Assumptions c12_protocol_any_union_find.
 Print Assumptions c12_iface_discharged.
 Print Assumptions c12_inner_loop_round.
